@@ -145,10 +145,16 @@ class RefSimfile(RefMap):
                 "charts": [c.plain() for c in self.charts]}
 
     def normalised_plain(self):
+        """What a save / load cycle gives: SSC note data moved last, SM chart
+        fields in the documented order."""
         d = self.plain()
         if self.kind == "ssc":
             for c, pc in zip(self.charts, d["charts"]):
                 pc["items"] = c.normalised_items()
+        else:
+            for c, pc in zip(self.charts, d["charts"]):
+                if isinstance(c, RefSMChart) and sorted(c.keys()) == sorted(SM_FIELDS):
+                    pc["items"] = [[k, c.get(k)] for k in SM_FIELDS]
         return d
 
     def clone(self):
@@ -315,7 +321,8 @@ def ref_emit(model):
             out.extend(ref_emit(c))
         return out
     if isinstance(model, RefSMChart):
-        f = [v for _, v in model.items]
+        # documented field order, whatever order the mapping holds the keys in
+        f = [model.get(k) for k in SM_FIELDS]
         out.append(("NOTES",) + tuple("\n     %s" % x for x in f[:5])
                    + ("\n%s\n" % f[5],) + tuple(model.extra or ()))
         return out
@@ -333,6 +340,10 @@ def ref_emit(model):
     raise TypeError(model)
 
 
+def _sm_complete(c):
+    return sorted(c.keys()) == sorted(SM_FIELDS)
+
+
 def serialisable(model):
     """Whether every value the serializer must write is a str or None."""
     def ok(v):
@@ -340,7 +351,7 @@ def serialisable(model):
     if isinstance(model, RefSimfile):
         return all(ok(v) for _, v in model.items) and all(serialisable(c) for c in model.charts)
     if isinstance(model, RefSMChart):
-        return all(isinstance(v, str) for _, v in model.items) and \
+        return _sm_complete(model) and all(isinstance(v, str) for _, v in model.items) and \
             all(isinstance(x, str) for x in (model.extra or ()))
     return all(ok(v) for _, v in model.items) and model.notes_key() is not None
 
